@@ -3,5 +3,6 @@ import lib
 
 def run():
     lib.build_harness(release=True)
+    lib.build_harness(release="asrepo")      # C02's second build (the workspace's own release settings)
     lib.log("setup: harness built")
     return 0
